@@ -73,6 +73,12 @@ pub enum StdoutSpec {
     Pty,
     /// The consumer reads exactly `after` bytes, then closes the read end.
     ClosingPipe { after: usize, pipe_size: Option<usize> },
+    /// A connected stream socket whose peer is gone before the child starts
+    /// (closed with nothing unread, so that a write meets EPIPE, not ECONNRESET).
+    ClosedSocket,
+    /// A pipe in non-blocking mode that is already full and that nobody reads
+    /// while the child runs: every write meets EAGAIN.
+    FullNonBlockingPipe,
 }
 
 #[derive(Clone, Debug)]
@@ -168,9 +174,21 @@ pub fn run_xt_limit(bin: Bin, args: &[OsString], cwd: &Path, stdin: StdinSpec, s
 }
 
 #[allow(clippy::too_many_arguments)]
+thread_local! {
+    /// When set, the child's argv[0] (any bytes; the program run stays the same).
+    pub static ARGV0_OVERRIDE: std::cell::RefCell<Option<Vec<u8>>> = std::cell::RefCell::new(None);
+}
+
 pub fn run_xt_full(bin: Bin, args: &[OsString], cwd: &Path, stdin: StdinSpec, stdout: StdoutSpec, stderr: StderrSpec, fifos: Fifos, limit_secs: u64) -> Res {
     let mut cmd = Command::new(bin.path());
     cmd.args(args).current_dir(cwd);
+    ARGV0_OVERRIDE.with(|a| {
+        if let Some(bytes) = a.borrow().as_ref() {
+            use std::os::unix::ffi::OsStrExt;
+            use std::os::unix::process::CommandExt;
+            cmd.arg0(std::ffi::OsStr::from_bytes(bytes));
+        }
+    });
     match stderr {
         StderrSpec::Pipe => {
             cmd.stderr(Stdio::piped());
@@ -213,6 +231,8 @@ pub fn run_xt_full(bin: Bin, args: &[OsString], cwd: &Path, stdin: StdinSpec, st
     let mut reader_fd: Option<OwnedFd> = None;
     let mut closing: Option<usize> = None;
     let mut pty_master: Option<OwnedFd> = None;
+    // kept open (and unread) until the child is gone
+    let mut full_pipe_reader: Option<OwnedFd> = None;
     match &stdout {
         StdoutSpec::Pipe => {
             cmd.stdout(Stdio::piped());
@@ -233,6 +253,31 @@ pub fn run_xt_full(bin: Bin, args: &[OsString], cwd: &Path, stdin: StdinSpec, st
             cmd.stdout(Stdio::from(w));
             reader_fd = Some(r);
             closing = Some(*after);
+        }
+        StdoutSpec::ClosedSocket => {
+            let mut fds = [0i32; 2];
+            let rc = unsafe { libc::socketpair(libc::AF_UNIX, libc::SOCK_STREAM | libc::SOCK_CLOEXEC, 0, fds.as_mut_ptr()) };
+            assert_eq!(rc, 0, "socketpair failed");
+            let (peer, ours) = unsafe { (OwnedFd::from_raw_fd(fds[0]), OwnedFd::from_raw_fd(fds[1])) };
+            drop(peer);
+            cmd.stdout(Stdio::from(ours));
+        }
+        StdoutSpec::FullNonBlockingPipe => {
+            let (r, w) = make_pipe(Some(4096));
+            unsafe {
+                let fd = std::os::fd::AsRawFd::as_raw_fd(&w);
+                let flags = libc::fcntl(fd, libc::F_GETFL);
+                libc::fcntl(fd, libc::F_SETFL, flags | libc::O_NONBLOCK);
+                let chunk = [b'#'; 1024];
+                loop {
+                    let n = libc::write(fd, chunk.as_ptr() as *const libc::c_void, chunk.len());
+                    if n <= 0 {
+                        break;
+                    }
+                }
+            }
+            cmd.stdout(Stdio::from(w));
+            full_pipe_reader = Some(r);
         }
     }
     let mut child = cmd.spawn().expect("spawn xt");
@@ -333,6 +378,7 @@ pub fn run_xt_full(bin: Bin, args: &[OsString], cwd: &Path, stdin: StdinSpec, st
         }
     };
     child_done.store(true, std::sync::atomic::Ordering::Relaxed);
+    drop(full_pipe_reader.take());
     let mut stdout_bytes = stdout_thread.map(|t| t.join().unwrap_or_default()).unwrap_or_default();
     let stderr_bytes = stderr_thread.map(|t| t.join().unwrap_or_default()).unwrap_or_default();
     if let Some(t) = pty_thread {
